@@ -40,6 +40,10 @@ claim("C09", "static analysis: per-exit routing analysis of the four keyed acces
       "Decides that a key is routed to the same part by every keyed accessor, that only the two owning setters touch the hash structures and record every new key's position exactly once, and that arbitrary Lua keys reach the raw store only through the nil/NaN-rejecting RawSet. It does not decide the map/border/traversal behaviour under histories.",
       BASE + "Go map semantics for dict/strdict.", "DESIGN.md §3 C09")
 
+claim("C19", "static analysis: typestate by guard dominance on the pruned SSA CFG with interprocedural summaries (every touch of fp/reader/writer/pp is dominated by the closed-handle guard on the same file), must-pass-through (read buffer abandoned on every exit after a write, before every seek; flush before close), table agreement of the open-mode switch with the ISO C fopen table using the os package's constants",
+      "Decides that no operation can reach the descriptor, reader, writer or process of a closed handle without raising, that the single-cursor reconciliation steps lie on every path where they are needed, and that the mode switch opens files with the flags ISO C prescribes. It does not decide what bytes are read after which writes.",
+      BASE + "ISO C fopen mode table written out in the checker.", "DESIGN.md §3 C19")
+
 for pid in ["C%02d" % i for i in range(2, 21)]:
     if pid not in P:
         na(pid, "check not built yet in this session (planned rules: DESIGN.md §3 %s); not claimed until its rules run clean" % pid)
